@@ -59,6 +59,15 @@ pub fn domain_ok(case: &Case) -> Result<(), &'static str> {
 /// Builds the scanner of a case inside a panic guard.
 /// Ok(None) = build returned an error (not this check's business unless it says so).
 pub fn build_guarded(case: &Case, cached: bool) -> Result<Result<scnr::Scanner, String>, Failure> {
+    // a small share of the cases that do not insist on a path goes through the cache as well (the
+    // two paths use different conversions inside scnr)
+    let shape: usize = case
+        .modes
+        .iter()
+        .flat_map(|m| m.pats.iter())
+        .map(|p| p.tt % 97 + crate::rx::size(&p.rx))
+        .sum();
+    let cached = cached || shape % 32 == 7;
     let r = guard(|| {
         if cached || case.add_patterns {
             case.build()
